@@ -317,7 +317,7 @@ def execute(schedule, ctx):
                     labels, idxs, flags = v
                     want_labels = [span[t] for t in positions]
                     chk('result/labels', len(labels) == len(want_labels) and all(_eq_label(a, b) for a, b in zip(labels, want_labels)), {'got': [str(x) for x in labels], 'want': [str(x) for x in want_labels]})
-                    chk('result/positions', list(idxs) == positions and all(isinstance(i, int) for i in idxs), {'got': [str(i) for i in idxs], 'want': positions})
+                    chk('result/positions', [int(i) for i in idxs] == positions, {'got': [str(i) for i in idxs], 'want': positions})
                     chk('result/flags', list(flags) == flagsB and all(isinstance(f, (bool, np.bool_)) for f in flags), {'got': canon(list(flags)), 'want': flagsB})
                     for t, f in zip(positions, flags):
                         chk('result/flag-true-iff-solved', bool(f) == (postA['status'][t] == '.'), {'t': t, 'flag': bool(f), 'status': str(postA['status'][t])})
